@@ -127,6 +127,8 @@ Scenario gen_mix(vu::Rng& rng, const Knobs& k, const std::string& family) {
     if (rm > 0) sc.bcfg.caps.receive_maximum = (uint16_t)rm;
     if (k.authenticator_pct && (int)rng.below(100) < k.authenticator_pct) {
         sc.ccfg.use_authenticator = true; sc.ccfg.auth_method = "SIM-AUTH"; sc.broker_auth_rounds = (int)rng.below(2);
+        // the application's authenticator reports a failure at its k-th step (once): the handshake / re-authentication in progress is abandoned
+        if (rng.chance(1, 3)) sc.ccfg.auth_fail_at_step = (int)rng.below(6);
         // client-initiated re-authentication in the middle of the traffic
         int nr = (int)rng.below(3);
         for (int i = 0; i < nr; ++i) { Action a; a.kind = Action::reauth; a.at = (vt)rng.range(0, k.span + 2 * SEC); sc.script.push_back(a); }
@@ -366,7 +368,7 @@ void run_idle_sweep(Judge& j, uint64_t nbase, int max_idle, const std::vector<in
     const FamilyCtx& ctx = j.ctx;
     uint64_t idx = 0;
     Knobs k; k.pubs_max = 6; k.suffix = 12 * SEC; k.span = 1 * SEC; k.faults_max = 1; k.bad_attempts_max = 1; k.big_payload_pct = 0;
-    k.rm_choices = {0, 0, 1, 2, 5, 10, 65535};
+    k.rm_choices = {0, 0, 1, 2, 5, 10, 65535}; k.authenticator_pct = 30;
     for (uint64_t bi = 0; bi < nbase; ++bi) {
         vu::Rng rng(ctx.seed * 31337 + bi * 104729);
         Scenario base = gen_mix(rng, k, "idle-base");
